@@ -1,0 +1,135 @@
+//go:build verif
+
+package packet
+
+import (
+	"net"
+	"net/netip"
+)
+
+// Host and MAC tables (C05): the representation invariant and the operations that maintain it.
+
+// spec_hostlist_nonnil: no nil host in the entry's host list.
+func spec_hostlist_nonnil(e *MACEntry) bool {
+	return vForall(0, len(e.HostList), func(j int) bool { return e.HostList[j] != nil })
+}
+
+// spec_mactable_lists_ok: no nil MAC entry, no nil host in any entry's host list, and every listed
+// host points back to the entry that lists it.
+func spec_mactable_lists_ok(h *Session) bool {
+	return vForall(0, len(h.MACTable.Table), func(i int) bool {
+		e := h.MACTable.Table[i]
+		return e != nil && vForall(0, len(e.HostList), func(j int) bool { return e.HostList[j] != nil })
+	})
+}
+
+// spec_tables_ok: every tracked host is indexed under its own IP, has its MAC entry, an online host
+// implies an online MAC entry, and the lists hold no nil.
+func spec_tables_ok(h *Session) bool {
+	return h.HostTable.Table != nil &&
+		vMapAll(h.HostTable.Table, func(ip netip.Addr, host *Host) bool {
+			return host != nil && host.Addr.IP == ip && host.MACEntry != nil && (!host.Online || host.MACEntry.Online) &&
+				spec_hostlist_nonnil(host.MACEntry)
+		}) &&
+		spec_mactable_lists_ok(h)
+}
+
+// engine self-test: a nested quantifier is usable at an arbitrary pair of indices
+//
+//verif:props C05
+func verif_lemma_nested_selftest(h *Session, i, j int) {
+	vRequires(h != nil && spec_mactable_lists_ok(h) && 0 <= i && i < len(h.MACTable.Table))
+	vCanary()
+	e := h.MACTable.Table[i]
+	vAssert(e != nil)
+	if 0 <= j && j < len(e.HostList) {
+		vAssert(e.HostList[j] != nil)
+	}
+}
+
+// ---------- MACEntry.unlink / link ----------
+
+func verif_inv_MACEntry_unlink_1(e *MACEntry, host *Host, rangeindex int) bool {
+	return e != nil && host != nil && -1 <= rangeindex && rangeindex < len(e.HostList) && spec_hostlist_nonnil(e)
+}
+func verif_dec_MACEntry_unlink_1(e *MACEntry, rangeindex int) int {
+	return len(e.HostList) - rangeindex
+}
+
+// unlink removes at most one host (the first with that IP) and keeps the list free of nil.
+//
+//verif:props C05
+func verif_contract_MACEntry_unlink(e *MACEntry, host *Host) {
+	vRequires(e != nil && host != nil && spec_hostlist_nonnil(e))
+	vCanary()
+	n0 := len(e.HostList)
+	vModifiesField(e, "HostList")
+	vModifiesElems(e.HostList) // shifts the tail down inside the list's own backing array
+	e.unlink(host)
+	vEnsures(len(e.HostList) == n0 || len(e.HostList) == n0-1)
+	vEnsures(spec_hostlist_nonnil(e))
+}
+
+// ---------- MACTable ----------
+
+// findOrCreate: the entry for mac, existing or new; a new entry owns a private copy of the MAC
+// (C10: it does not alias the caller's bytes) and an empty host list.
+//
+//verif:props C05 C10
+func verif_contract_MACTable_findOrCreate(s *MACTable, mac net.HardwareAddr) *MACEntry {
+	vRequires(s != nil && spec_mactable_nonnil_t(s))
+	vCanary()
+	vBorrowed(mac) // the entry keeps a private copy
+	n0 := len(s.Table)
+	vModifiesObj(s)
+	vModifiesMems("elem:*github.com/irai/packet.MACEntry")
+	e := s.findOrCreate(mac)
+	vEnsures(e != nil && spec_mactable_nonnil_t(s))
+	vEnsures(len(s.Table) == n0 || (len(s.Table) == n0+1 && s.Table[n0] == e && len(e.HostList) == 0 && vIsFreshRegion(e.MAC)))
+	vEnsures(len(e.MAC) == len(mac))
+	return e
+}
+
+func spec_mactable_nonnil_t(s *MACTable) bool {
+	return vForall(0, len(s.Table), func(i int) bool { return s.Table[i] != nil })
+}
+
+// delete removes the entry for mac (if any) and keeps the table free of nil.
+//
+//verif:props C05
+func verif_contract_MACTable_delete(s *MACTable, mac net.HardwareAddr) error {
+	vRequires(s != nil && spec_mactable_nonnil_t(s))
+	vCanary()
+	n0 := len(s.Table)
+	vModifiesObj(s)
+	vModifiesElems(s.Table)
+	err := s.delete(mac)
+	vEnsures(err == nil && (len(s.Table) == n0 || len(s.Table) == n0-1))
+	vEnsures(spec_mactable_nonnil_t(s))
+	return err
+}
+
+// printHostTable cross-checks the two tables by COUNTING (sum of the host lists against the size
+// of the index) and panics when they differ: a cardinality argument no contract here decides.
+// TRUSTED: it returns and changes nothing.
+func verif_extern_Session_printHostTable(h *Session) {
+	h.printHostTable()
+}
+
+// ---------- Session.deleteHost ----------
+
+// deleteHost removes the host indexed under ip (if any) from the index and from its MAC entry,
+// and drops the MAC entry when that was its last host. (That the global invariant is kept is not
+// decided: it needs the separation of the per-entry host lists, see DESIGN.md.)
+//
+//verif:props C05
+//verif:timeout 60s
+func verif_contract_Session_deleteHost(h *Session, ip netip.Addr) {
+	vRequires(spec_session_wf(h) && spec_tables_ok(h))
+	vCanary()
+	vModifiesMems("packet.Host", "packet.MACEntry", "packet.MACTable", "packet.Session/", "map[net/netip.Addr]*github.com/irai/packet.Host")
+	h.deleteHost(ip)
+	_, in := h.HostTable.Table[ip]
+	vEnsures(!in)
+	vEnsures(spec_session_wf(h))
+}
